@@ -100,12 +100,24 @@ JOBS["C19"] = [
     I("routing", "internal/core", "^TestVerifC19Routing$", {"shards": 6, "checks": 4, "timeout": 1200}, {"shards": 14, "checks": 40, "timeout": 3400}),
 ]
 
+JOBS["C14"] = [
+    H("dkgservice", "dkgnet", "^TestC14DKGService$", {"shards": 6, "checks": 8, "timeout": 1500}, {"shards": 14, "checks": 150, "timeout": 3400}),
+    I("daemon", "internal/core", "^TestVerifC14Requests$", {"shards": 8, "checks": 10, "timeout": 1500}, {"shards": 14, "checks": 200, "timeout": 3400}, crash_is_violation=True),
+]
+
 LEVELS = {"C13": "fault_enumeration"}
 
 _MACHINE = ("rapid state machine over a network of real beacon handlers: scheme in 5, n in 2..6, t in [n/2+1,n], back-end in {memdb (cap 2000 or 10), bolt trimmed, bolt untrimmed}, period 2..6 s; "
             "actions: tick, sub-period advance, burst of 2-6 periods, advance of a subset (skew/stall), realign, partition/heal, queue mode with generated delivery order and drops, duplicate mode, stop/restart (same or fresh store), "
             "forged partial injection (12 kinds incl. valid-for-clock+k), scripted lying sync peer (13 kinds), sync-stream tap. ")
 RULES = {
+    "C14": "(daemon depth) a real DrandDaemon with two running chains and one ungrouped id, over real loopback gRPC with its real interceptors and through its real HTTP handler: sequences of 1-5 requests; request messages for every RPC of the peer-facing listener "
+           "(Protocol.GetIdentity/PartialBeacon/SyncChain/Status, Public.PublicRand/PublicRandStream/ChainInfo/ListBeaconIDs, DKGPublic.Packet/BroadcastDKG) are built from the protobuf descriptors by reflection: every field independently absent / zero / typical / hostile "
+           "(known and unknown ids and hashes, 0/1/47/48/49/96/98/65536-byte strings, valid partial / key / signature bytes optionally bit-flipped, 0, 1, head, head+1, 2^32, 2^64-1), nested messages nil / empty / filled, every oneof arm or none, lists of 0-3; half of the requests "
+           "structurally complete with known ids so that they pass early validation; HTTP paths incl. malformed rounds and hashes. (service depth) real dkg.Process objects in states fresh / complete / mid-proposal / after an execution receive generated gossip and broadcast packets "
+           "and floods of distinct bundles carrying a valid group-member signature, with the containment of the recovery interceptor. Oracle: every request is answered (value or error) within its endpoint bound (5 s; next-round waits are released by advancing the fake clock), "
+           "no fatal log event, afterwards valid probes succeed on every service (ChainInfo, PublicRand, GetIdentity, a DKG packet, an operator command, HTTP /info), a tick still produces the next beacon, and the DKG process shuts down. "
+           "Non-trivial: at least one request reached a service implementation; distinct by the rendered request sequence.",
     "C19": "a real DrandDaemon (in-package) hosting 2-3 single-member chains with ids from {default, a, b}, each with its own key and a drawn scheme, optionally one loaded-but-ungrouped id, bolt or memdb storage; started from files written by the harness (migration path), "
            "fake clock, a few rounds produced. At every point of a drawn history (initial; Shutdown(id); LoadBeacon(id) again; Shutdown(default)) the full matrix is enumerated: beacon id in {nil metadata, absent, default, a, b, u, unknown} x chain hash in "
            "{absent, hash of each chain, unknown 32 bytes, 5 bytes, the bytes of \"default\"} x endpoint in {PublicRand, ChainInfo, GetIdentity, SyncChain, PublicRandStream, GroupFile} called on the daemon's service methods, plus HTTP (real handler) "
@@ -192,6 +204,7 @@ RULES = {
 }
 
 ASSUMPTIONS = {
+    "C14": ["resource exhaustion by volume is C12's subject", "TLS and reverse proxies are not in the loop", "native coverage-guided fuzz targets were not built (structured generation from the descriptors instead)"],
     "C19": ["service methods are called in-process (the gRPC transport adds no routing); HTTP goes through the daemon's real handler", "single-member groups (the routing layer does not depend on group size)", "/health excluded: it compares with the wall clock"],
     "C07": ["the harness re-implements core's orchestration (transitionToNext / joinNetwork / leaveNetwork): defects inside those functions are outside this check", "new shares are handed over before round rT-1 is stored (the daemon does so ~10 rounds ahead)",
             "old shares stay shares of the same secret: a threshold of leavers that keeps running can still sign (inherent to resharing, not asserted)", "failed / aborted reshare leaving the old group producing is covered at the DKG level by C08 (records untouched), not with beacons"],
